@@ -1608,7 +1608,7 @@ class Qube(object):
         if preserve:
 
             # Delete derivatives not on the list
-            for key in self._derivs_.keys():
+            for key in list(self._derivs_.keys()):
                 if key not in preserve:
                     self.delete_deriv(key, override)
 
